@@ -1,15 +1,26 @@
 """Source of truth for MANIFEST.json (tools/mkmanifest.py turns it into JSON)."""
 
 ENGINES = [
+    {"name": "PROG", "path": "mc/prog.py, mc/proggen.py", "serves_properties": ["C01"],
+     "kind_free_text": "bounded-exhaustive enumerator of component programs (AST + printer) executed on the real library and compared with a reference interpreter"},
     {"name": "SEQ", "path": "mc/seq.py", "serves_properties": ["C18"],
      "kind_free_text": "explicit-state BFS over operation histories on the real objects, canonical-state merging, reference model per step, unmerged cross-check"},
 ]
 
-FIX_COMMITS = []
+FIX_COMMITS = ["9971f7b (C01)"]
 
 _PENDING = "check not built yet in this session (build order: DESIGN.md section 6); it will be decided by the same bounded-exhaustive technique"
 
 CHECKS = {
+    "C01": {
+        "engine": "PROG",
+        "design_ref": "DESIGN.md 2.1, 3/C01",
+        "technique": "bounded-exhaustive program enumeration on the real renderer vs reference interpreter (explicit-state, all programs <= N nodes)",
+        "text": "Every component program of the slot/fill profile with <= N nodes (quick: N<=4 full profile + N=5 core profile; thorough: N<=5 full + N=6 core) "
+                "is rendered by the real library in both context_behavior modes, through the component tag, the dynamic component and Component.render(slots=...), "
+                "and output / error class / is_filled probes are compared with a denotational reference interpreter on every program.",
+        "note": "bounded program size; variables scope-independent by construction (scoping is C03); slots only inside component templates; acyclic component graphs; reference interpreter encodes the statement's lexical slot resolution",
+    },
     "C18": {
         "engine": "SEQ",
         "design_ref": "DESIGN.md 2.3, 3/C18",
